@@ -86,6 +86,12 @@ def cases(ctx, n):
         root = ctx.rng.choice(ROOTS)
         t = gen.any_text(ctx.rng, 'debateReport' if root == 'debatereport' else root)
         if ctx.rng.random() < 0.1: t = t.replace('\n', '\r\n')
+        if ctx.rng.random() < 0.3:
+            # characters that str.splitlines / universal newlines / codecs treat specially: the file's text must reach the parser as it is
+            for _ in range(ctx.rng.randint(1, 3)):
+                k = ctx.rng.randrange(len(t) + 1)
+                t = t[:k] + ctx.rng.choice(['\u2028', '\u2029', '\x85', '\x0b', '\x0c', '\x1c', '\x1d', '\x1e', '\r', '\ufeff', '\xa0', '\u3000', '\t']) + t[k:]
+        if ctx.rng.random() < 0.1: t = t.rstrip('\n')
         out.append((URI, root, t, ctx.rng.random() < 0.4, ctx.rng.random() < 0.4))
     return out
 
